@@ -23,8 +23,8 @@ def explicit_and_secrecy(ctx):
                     "output table / blob members byte-scanned for the salt; non-trivial = every case")
     R = ctx.rng
     df = pd.DataFrame({"a": [R.randint(0, 3) for _ in range(80)], "b": [f"v{R.randint(0, 2)}" for _ in range(80)]})
-    for _ in range(ctx.scale(3, 12)):
-        salt = bytes(R.getrandbits(8) | 1 for _ in range(R.choice([1, 8, 16])))
+    for ln in [1, 3, 7, 8, 9, 16, 33][:ctx.scale(7, 7)]:
+        salt = bytes(R.getrandbits(8) | 1 for _ in range(ln))
         syn = Synthesizer(df, anonymization_params=AnonymizationParams(salt=salt))
         St.count(("explicit", salt), True, {"explicit_salt_len": len(salt)})
         if syn.salt != salt:
